@@ -1,6 +1,7 @@
 import BoxoModel.C15.DirLemmas
 import BoxoModel.C15.BitsLemmas
 import BoxoModel.C15.ConvLemmas
+import BoxoModel.C15.DynLemmas
 import BoxoModel.C16.Lemmas
 /-!
 # C15 — UnixFS directories behave as name-to-entry maps
@@ -135,6 +136,34 @@ theorem c15_conversions_preserve_entries (h : Name → List Byte) (g : Globals) 
   ⟨fun b hd hn hu hs ok => ⟨(switchToSharding_entries h g U b hd hn hu hs ok).1, (switchToSharding_entries h g U b hd hn hu hs ok).2.2⟩,
    fun hd ml b hi hs => switchToBasic_entries g (hd.dg h) hd ml b hi.1 hs⟩
 
+/-- **The auto-switching DynamicDirectory refines the (bounded) map** — for EVERY history of edits,
+look-ups and listings interleaved with reloads from the root node (`NewDirectoryFromNode(GetNode())`) and
+the setters MFS re-applies (`SetMaxLinks`, `SetHAMTShardingSize`, `SetSizeEstimationMode`), whatever the
+thresholds, modes and link limits make the directory do (stay, basic → HAMT, HAMT → basic): every answer
+and listing is the map's; in particular no conversion ever aborts, `RemoveChild` of an existing name
+never fails, and `AddChild` is refused only for a NEW name by a basic directory at its link limit while
+switching is disabled.  Guards: a usable default width (`GOK`), a usable fanout setting (`DynInv`/`SetOK`),
+and the hash assumption `DigitsOK` over the universe of names for every usable shard width.
+(Holds for the repaired code: lazy entry count of a loaded HAMT, fix 12efed3.) -/
+theorem c15_dyn_refines (h : Name → List Byte) (g : Globals) (U : Name → Prop)
+    (hg : GOK g) (hok : ∀ w, WidthOK w → DigitsOK U (fun n => hashDigits (h n) (lg2 w)))
+    (ops : List XOp) (st : State) (hi : DynInv h U st) (hops : ∀ x ∈ ops, XOpIn U x) :
+    DynInv h U (xrun h g st ops).1 ∧
+      XSpecRun (absState h st) ops (xrun h g st ops).2 (absState h (xrun h g st ops).1) :=
+  dyn_run h g U hg hok ops st hi hops
+
+/-- `NewDirectory(opts…)` with a usable fanout option is a valid start state denoting the empty map -/
+theorem c15_dyn_fresh (h : Name → List Byte) (g : Globals) (U : Name → Prop) (hg : GOK g) (s : Settings) (hs : SetOK s)
+    (b : Basic) (hn : Basic.new g s = some b) :
+    DynInv h U { dyn := true, dir := .basic b } ∧ absState h { dyn := true, dir := .basic b } = fun _ => none := by
+  obtain ⟨b0, hb0, hl, ht, _⟩ := basic_new_ok g s hs
+  rw [hn] at hb0
+  simp only [Option.some.injEq] at hb0
+  subst hb0
+  refine ⟨⟨rfl, setok_basic_new g s b hg hs hn, by simp [hl], by simp [hl], by simp [hl, ht]⟩, ?_⟩
+  funext k
+  simp [absState, Basic.getLink, hl]
+
 /-- **Bit extraction** (`hashBits.Next`, byte-level code with the regenerated `mkmask`): reading `i` bits
 at offset `consumed` fails exactly when fewer than `i` bits are left, and otherwise returns the
 big-endian value of the window `[consumed, consumed+i)` of the hash's bit string. -/
@@ -182,6 +211,13 @@ section examples
 def exDg : Name → List Nat := fun n => if n = "61" then [1, 2, 3] else if n = "62" then [1, 2, 5] else [4, 4, 4]
 def exL (c : String) : Lnk := { cid := c, clen := 34, size := 1 }
 def exT : Trie := ((Trie.nil.swap exDg "61" (some (exL "A")) 1 [2, 3]).1.swap exDg "62" (some (exL "B")) 1 [2, 5]).1
+
+/-- `DigitsOK` is satisfiable (three equally long digit strings, distinct on the universe {"61","62"}) -/
+example : DigitsOK (fun n => n = "61" ∨ n = "62") exDg where
+  len := fun a b => by simp only [exDg]; split <;> split <;> (try split) <;> (try split) <;> rfl
+  ne := fun a => by simp only [exDg]; split <;> (try split) <;> simp
+  inj := fun a b ha hb hab => by
+    rcases ha with rfl | rfl <;> rcases hb with rfl | rfl <;> first | rfl | (exfalso; revert hab; decide)
 
 example : toDag exT = .sub 1 (.sub 2 (.val 3 "61" (exL "A") (.val 5 "62" (exL "B") .nil)) .nil) .nil := by decide
 example : lookup "62" exT 1 [2, 5] = some (exL "B") := by decide
